@@ -1,5 +1,7 @@
 /- Property C09: the property theorems (and nothing else). -/
 import Frugal.Proofs.BitsetLemmas
+import Frugal.Proofs.ReaderProps
+import Frugal.Proofs.EncodeRefine
 import Frugal.Props.Instances
 namespace Frugal.C09
 open Frugal
@@ -16,4 +18,36 @@ theorem unset_then_test (s : BitSet) (i j : Nat) :
 theorem required_bit_exact (s0 : BitSet) (req seen : List Nat) (r : Nat) (hr : r ∈ req) :
     (presenceRun Generated.params s0 req seen).test Generated.params r = decide (r ∈ seen) :=
   presence_clean (bsOK_of_valid Instances.valid_bitset) s0 req seen r hr
+
+/-- the presence record after the field loop is exactly the set of schema fields that occurred in
+    the message with their declared wire type (a mistyped occurrence does not count) -/
+theorem presence_is_occurrence (S : Schema) (total fuel : Nat) (sd : SDesc) (fs : List (Nat × TVal))
+    (tail : Nat) (vs : List Val) (st' : LoopSt)
+    (h : readFields Generated.params S total fuel sd fs tail { fs := vs } = .ok st') (i : Nat) :
+    i ∈ st'.seen ↔ i ∈ knownIds sd fs :=
+  seen_exact _ S total fuel sd fs tail vs st' h i
+
+/-- every struct, at every nesting level: rejected with an error naming the first required field
+    that did not occur; accepted on that account exactly when none is missing -/
+theorem required_verdict (S : Schema) (total fuel sid : Nat) (fs : List (Nat × TVal)) (tail : Nat)
+    (vs : List Val) (h : Bytes) (st' : LoopSt)
+    (hloop : readFields Generated.params S total fuel (S.get sid) fs (tail + 1) { fs := vs } = .ok st') :
+    readStruct Generated.params S total (fuel + 1) sid fs tail (.st vs h) =
+      match firstMissing (S.get sid).fields st'.seen with
+      | some f => .err (.required f.name)
+      | none => .ok (.st st'.fs (if (S.get sid).hasHolder && st'.unk.length > 0 then st'.unk else h)) :=
+  Frugal.required_verdict _ S total fuel sid fs tail vs h st' hloop
+
+theorem none_missing_iff (fields : List Field) (seen : List Nat) :
+    firstMissing fields seen = none ↔ ∀ f ∈ fields, f.req = .required → f.id ∈ seen :=
+  firstMissing_none_iff fields seen
+
+theorem missing_is_required_and_absent (fields : List Field) (seen : List Nat) (f : Field)
+    (h : firstMissing fields seen = some f) : f ∈ fields ∧ f.req = .required ∧ f.id ∉ seen :=
+  firstMissing_some_spec fields seen f h
+
+/-- the encoder writes every required field, whatever its value (zero, nil, equal to a default) -/
+theorem required_always_written (sd : SDesc) (f : Field) (v : Val) (h : f.req = .required) :
+    fieldWritten sd f v = true := by
+  simp [fieldWritten, h]
 end Frugal.C09
